@@ -60,6 +60,7 @@ func (prog *Program) buildSMT(o *Obligation, axioms []*Term, wantModel bool) str
 	var bg []*Term
 	for iter := 0; iter < 3; iter++ {
 		bg = append(strAxioms(c.decls), shiftAxioms(c.decls)...)
+		bg = append(bg, usgAxioms(c.decls)...)
 		n := len(c.decls)
 		for _, t := range bg {
 			c.term(t)
@@ -87,9 +88,13 @@ func (prog *Program) buildSMT(o *Obligation, axioms []*Term, wantModel bool) str
 		}
 		b.WriteString("(assert " + t.String() + ")\n")
 	}
+	o.Joins = nil
 	for _, t := range o.Assume {
 		if groundOnly && hasQuant(t) {
 			continue
+		}
+		if j := joinVariants(t); j != nil {
+			o.Joins = append(o.Joins, j)
 		}
 		b.WriteString("(assert " + t.String() + ")\n")
 	}
@@ -166,14 +171,18 @@ func (prog *Program) discharge(obls []*Obligation, axioms []*Term, opt solveOpts
 			defer wg.Done()
 			sem <- struct{}{}
 			defer func() { <-sem }()
-			solveOne(o, files[i], opt)
+			solveSplit(o, files[i], opt, 0)
 		}(i, o)
 	}
 	wg.Wait()
 }
 
 func solveOne(o *Obligation, file string, opt solveOpts) {
-	ctx := context.Background()
+	solveStages(context.Background(), o, file, opt, 0)
+}
+
+// solveStages: stage 1 = primary solver with a short budget, stage 2 = race of all solvers. which: 0 both, 1 or 2 one of them.
+func solveStages(ctx context.Context, o *Obligation, file string, opt solveOpts, which int) {
 	if o.Cover {
 		// vacuity check: run the two z3 versions briefly; "unsat" means the assumptions are contradictory
 		total := 0.0
@@ -201,17 +210,26 @@ func solveOne(o *Obligation, file string, opt solveOpts) {
 	total := 0.0
 	var outs []string
 	// stage 1: primary solver with a short budget; stage 2: race all
-	st, out, secs := runSolver(ctx, solvers[0], file, minDur(opt.timeout, 5*time.Second))
-	total += secs
-	outs = append(outs, solvers[0].Name+": "+firstLine(out))
-	if st == want {
-		o.Status, o.Solver, o.Seconds, o.Output = st, solvers[0].Name, total, strings.Join(outs, "; ")
-		return
-	}
-	if st == "sat" || st == "unsat" {
-		// definite opposite answer from the primary solver
-		o.Status, o.Solver, o.Seconds, o.Output = st, solvers[0].Name, total, strings.Join(outs, "; ")
-		return
+	if which != 2 {
+		st, out, secs := runSolver(ctx, solvers[0], file, minDur(opt.timeout, 5*time.Second))
+		total += secs
+		outs = append(outs, solvers[0].Name+": "+firstLine(out))
+		if st == want {
+			o.Status, o.Solver, o.Seconds, o.Output = st, solvers[0].Name, total, strings.Join(outs, "; ")
+			return
+		}
+		if st == "sat" || st == "unsat" {
+			// definite opposite answer from the primary solver
+			o.Status, o.Solver, o.Seconds, o.Output = st, solvers[0].Name, total, strings.Join(outs, "; ")
+			return
+		}
+		if which == 1 {
+			o.Status, o.Solver, o.Seconds, o.Output = st, "", total, strings.Join(outs, "; ")
+			if st != "timeout" {
+				o.Status = "unknown"
+			}
+			return
+		}
 	}
 	type res struct {
 		sc   SolverCfg
@@ -283,4 +301,120 @@ func (prog *Program) getModel(o *Obligation, axioms []*Term, dir string, timeout
 		out = out[:60000] + "\n...truncated"
 	}
 	return out
+}
+
+// joinVariants recognises the fact a control-flow join leaves in the path condition, "(or g1 .. gn)" (possibly under a
+// condition c when the join is nested in a branch), and returns the case split it licenses: one assertion per case,
+// together exhaustive.
+func joinVariants(t *Term) []string {
+	isG := func(x *Term) bool { return x.D != nil && len(x.Args) == 0 && strings.HasPrefix(x.D.Name, "g@") }
+	var cond *Term
+	if t.Op == "=>" && len(t.Args) == 2 {
+		cond, t = t.Args[0], t.Args[1]
+	}
+	if t.Op != "or" || len(t.Args) < 2 {
+		return nil
+	}
+	for _, a := range t.Args {
+		if !isG(a) {
+			return nil
+		}
+	}
+	var out []string
+	if cond != nil {
+		out = append(out, "(not "+cond.String()+")")
+	}
+	for _, a := range t.Args {
+		out = append(out, a.String())
+	}
+	return out
+}
+
+// solveSplit: stage 1; when it gives no answer and the path condition contains control-flow joins, the solver race and
+// a case split over the most recent join run side by side and the first proof wins (each case is the same query plus
+// one selector; the cases are exhaustive because the disjunction of the selectors is itself an assumption). Up to three
+// nested splits.
+func solveSplit(o *Obligation, file string, opt solveOpts, depth int) {
+	solveSplitCtx(context.Background(), o, file, opt, depth)
+}
+
+func solveSplitCtx(ctx context.Context, o *Obligation, file string, opt solveOpts, depth int) {
+	if o.Cover || o.Raw != "" || depth >= 3 || len(o.Joins) <= depth {
+		solveStages(ctx, o, file, opt, 0)
+		return
+	}
+	solveStages(ctx, o, file, opt, 1)
+	if o.Status == "unsat" || o.Status == "sat" {
+		return
+	}
+	txt, err := os.ReadFile(file)
+	if err != nil {
+		solveStages(ctx, o, file, opt, 2)
+		return
+	}
+	cctx, cancel := context.WithCancel(ctx)
+	defer cancel()
+	race := &Obligation{Name: o.Name}
+	done := make(chan string, 2)
+	go func() {
+		solveStages(cctx, race, file, opt, 2)
+		done <- "race"
+	}()
+	variants := o.Joins[len(o.Joins)-1-depth]
+	subs := make([]*Obligation, len(variants))
+	splitStatus := ""
+	go func() {
+		var wg sync.WaitGroup
+		for i, v := range variants {
+			sub := &Obligation{Name: o.Name, Joins: o.Joins}
+			subs[i] = sub
+			f := fmt.Sprintf("%s.c%d", strings.TrimSuffix(file, ".smt2"), i) + ".smt2"
+			os.WriteFile(f, []byte(strings.Replace(string(txt), "(check-sat)", "(assert "+v+")\n(check-sat)", 1)), 0o644)
+			wg.Add(1)
+			go func(sub *Obligation, f string) {
+				defer wg.Done()
+				solveSplitCtx(cctx, sub, f, opt, depth+1)
+			}(sub, f)
+		}
+		wg.Wait()
+		st := "unsat"
+		for _, sub := range subs {
+			switch {
+			case sub.Status == "sat":
+				st = "sat"
+			case sub.Status != "unsat" && st == "unsat":
+				st = sub.Status
+			}
+		}
+		splitStatus = st
+		done <- "split"
+	}()
+	first := <-done
+	decided := func(w string) bool {
+		if w == "race" {
+			return race.Status == "unsat" || race.Status == "sat"
+		}
+		return splitStatus == "unsat"
+	}
+	who := first
+	if !decided(first) {
+		second := <-done
+		if decided(second) {
+			who = second
+		} else {
+			who = "race"
+		}
+	}
+	cancel()
+	if who == "race" {
+		o.Status, o.Solver = race.Status, race.Solver
+		o.Seconds += race.Seconds
+		o.Output += "; " + race.Output
+		return
+	}
+	for _, sub := range subs {
+		o.Seconds += sub.Seconds
+	}
+	o.Status, o.Solver = "unsat", "case-split("+subs[len(subs)-1].Solver+")"
+	o.Output += fmt.Sprintf("; case split over the %d cases of a control-flow join: all unsat", len(variants))
 }
